@@ -248,7 +248,7 @@ def call(ex, n, st, q, rd, objn, argn, method, want_lv):
         if q and q.startswith('vfps::') and q not in ('vfps::upper_power_of_two_model',):
             return NOMODEL
         if name in ('transform', 'copy_n', 'fill_n', 'copy', 'fill', 'accumulate', 'inner_product', 'swap', 'move', 'forward',
-                    'make_shared', 'make_unique', 'get', 'norm', 'real', 'imag', 'conj', 'exp', 'polar', 'arg'):
+                    'make_shared', 'make_unique', 'get', 'norm', 'real', 'imag', 'conj', 'exp', 'polar', 'arg', 'swap_ranges'):
             r = algo_call(ex, n, st, name, argn)
             if r is not NOMODEL:
                 return r
@@ -696,6 +696,25 @@ def algo_call(ex, n, st, name, argn):
     if name in ('move', 'forward'):
         a = argn[0]
         return ex.ev_obj(a, st) if a.get('valueCategory') in ('lvalue', 'xvalue') and parse_type(a['type']).kind == 'class' else ex.ev(a, st)
+    if name == 'swap_ranges':
+        # std::swap_ranges(first1, last1, first2): element-wise exchange of [first1,last1) with [first2, first2+n)
+        f1, l1, f2 = [ex.ev(x, st) for x in argn[:3]]
+        if not (isinstance(f1, PtrV) and isinstance(l1, PtrV) and isinstance(f2, PtrV) and f1.region == l1.region and f1.region and f2.region):
+            raise ExtractionError(f'{ex.unit}: swap_ranges over something that is not two buffers (line {ex.curline})')
+        cnt = l1.off - f1.off
+        ex.safe(st, 'swap-range-1', z3.Or(cnt <= 0, z3.And(f1.off >= 0, l1.off <= st.len_of(f1.region))), f'first range inside {f1.region}')
+        ex.safe(st, 'swap-range-2', z3.Or(cnt <= 0, z3.And(f2.off >= 0, f2.off + cnt <= st.len_of(f2.region))), f'second range inside {f2.region}')
+        leaves = set(k_[1] for k_ in st.arr if k_[0] in (f1.region, f2.region)) or {''}
+        kk = z3.Int('k!swapr')
+        for lf in leaves:
+            lct = st.leafct.get((f1.region, lf)) or st.leafct.get((f2.region, lf)) or FLOAT
+            a, b = st.array(f1.region, lf, lct), st.array(f2.region, lf, lct)
+            st.arr[(f1.region, lf)] = z3.Lambda([kk], z3.If(z3.And(kk >= f1.off, kk < f1.off + cnt), z3.Select(b, kk - f1.off + f2.off), z3.Select(a, kk)))
+            st.arr[(f2.region, lf)] = z3.Lambda([kk], z3.If(z3.And(kk >= f2.off, kk < f2.off + cnt), z3.Select(a, kk - f2.off + f1.off), z3.Select(b, kk)))
+        for r_, p_ in ((f1.region, f1), (f2.region, f2)):
+            ex.logw(('r', r_))
+            ex.frame_range(st, r_, p_.off, p_.off + cnt)
+        return PtrV(f2.region, f2.off + cnt, f2.ct)
     if name == 'swap':
         if parse_type(argn[0].get('type')).kind in ('int', 'float'):
             la, lb = ex.lv(argn[0], st), ex.lv(argn[1], st)
